@@ -264,20 +264,43 @@ def check_element_buffers(ctx, db):
     ctx.require('R-FRESH element_center call sites', n, 4)
 
 
+def check_record_length_width(ctx, db):
+    """The record length is an UNSIGNED 16-bit big-endian number (records of 32768..65535 bytes are legal: an XY record of 4096
+    or more points): every reinterpretation of the start of the record buffer (the header word) in gdsii_read_record goes
+    through an unsigned 16-bit lvalue, and the length is widened, not sign-extended."""
+    f = db.fn('gdstk::gdsii_read_record')
+    ctx.touch(f)
+    bk = next(('v%d:%s' % (p_['d'], p_['n']) for p_ in f.params if 'uint8_t *' in (p_.get('t') or '') or p_['n'] == 'buffer'), None)
+    sites = []
+    for x in f.walk():
+        if x.k == 'UnaryOperator' and x.op == '*':
+            c = x.child('sub')
+            while c is not None and c.k == 'ImplicitCastExpr':
+                c = c.child('sub')
+            if c is not None and c.k in ('CStyleCastExpr', 'CXXReinterpretCastExpr') and lvalue_key(_strip_casts(c.child('sub'))) == bk:
+                sites.append((x, c))
+    if not sites:
+        raise AnalysisBroken('gdsii_read_record: read of the record header word not found')
+    bad = [(x, c) for x, c in sites if 'uint16_t' not in (c.t or '')]
+    ctx.check(not bad, 'R-WIDTH', 'gdsii_read_record/length-unsigned-16', sites[0][0].loc(), 'the record length is read through `uint16_t*` (%d site(s)): lengths up to 65535 are accepted' % len(sites),
+              'the record header is read through `%s`: a record of 32768 bytes or more (an XY record of 4096+ points, which gdstk itself writes) gets a negative / huge length and the file is rejected' % (bad[0][1].t if bad else ''))
+
+
 def run(ctx):
     db = ctx.db
-    check_writers(ctx, db)
-    check_reader_types(ctx, db)
-    check_reader_state(ctx, db)
-    check_xy_continuation(ctx, db)
-    check_element_buffers(ctx, db)
+    ctx.attempt(check_writers, ctx, db)
+    ctx.attempt(check_reader_types, ctx, db)
+    ctx.attempt(check_reader_state, ctx, db)
+    ctx.attempt(check_xy_continuation, ctx, db)
+    ctx.attempt(check_element_buffers, ctx, db)
     n = 0
     for qn in ('gdstk::read_gds', 'gdstk::gds_info', 'gdstk::gds_units', 'gdstk::gds_timestamp'):
         n += flow.check_error_checked(ctx, db.fn(qn), 'gdstk::gdsii_read_record')
     ctx.require('R-ERRCHK call sites', n, 4)
+    ctx.attempt(check_record_length_width, ctx, db)
     from . import C01  # AREF semantics of the manual: second/third XY point = origin + count x pitch, counts as written in COLROW
-    C01.check_aref(ctx, db)
-    C01.check_strans_writer(ctx, db)   # STRANS present whenever the element is reflected / rotated / magnified
+    ctx.attempt(C01.check_aref, ctx, db)
+    ctx.attempt(C01.check_strans_writer, ctx, db)# STRANS present whenever the element is reflected / rotated / magnified
 
 
 MANIFEST = dict(
